@@ -13,6 +13,7 @@ pub open spec fn order_of<K, V>(m: Map<K, V>, ks: Seq<K>) -> bool {
     &&& ks.no_duplicates()
     &&& ks.len() == m.len()
     &&& forall|k: K| m.contains_key(k) <==> ks.contains(k)
+    &&& forall|i: int| 0 <= i < ks.len() ==> m.contains_key(#[trigger] ks[i])     // (implied by the line above; trigger-friendly)
 }
 
 impl<K, V> HashMap<K, V> {
@@ -72,6 +73,13 @@ pub open spec fn share_wf(m: ConsumerGroupMember) -> bool {
 }
 pub open spec fn share(m: ConsumerGroupMember) -> Seq<u32> {
     Seq::new(m.partitions@.len(), |j: int| m.partitions@[j as u32])
+}
+
+// r lists the share in some order: ks is a duplicate-free enumeration of the positions 0..|share| and r[i] = share[ks[i]]
+pub open spec fn is_permuted_share(m: ConsumerGroupMember, r: Seq<u32>, ks: Seq<u32>) -> bool {
+    &&& order_of(m.partitions@, ks)
+    &&& r.len() == ks.len()
+    &&& forall|i: int| 0 <= i < r.len() ==> (ks[i] as int) < share(m).len() && #[trigger] r[i] == share(m)[ks[i] as int]
 }
 
 // ---- the property clauses, over assign(g) : member id -> share -----------------------------------
